@@ -112,8 +112,19 @@ pub fn corpus(a: &Args, rng: &mut Rng, want_bundled: bool) -> Corpus {
     if want_bundled || !a.quick() {
         let mut b = tzcorpus::dedup(tzcorpus::bundled());
         if let Some(n) = a.opt("max-bundled").and_then(|s| s.parse::<usize>().ok()) {
-            // deterministic subsample (seeded)
+            // deterministic subsample (seeded), behind the ones whose slim data ends in an unusual way
+            // (America/Nuuk: the last recorded transition changes no offset but coincides with a rule transition)
+            let keepb = ["America/Nuuk", "America/Godthab", "Europe/Dublin", "America/New_York", "Africa/Casablanca",
+                         "Pacific/Auckland", "America/Sao_Paulo", "Asia/Tokyo"];
             let mut kept = Vec::new();
+            let mut i = 0;
+            while i < b.len() {
+                if keepb.contains(&b[i].name.as_str()) {
+                    kept.push(b.swap_remove(i));
+                } else {
+                    i += 1;
+                }
+            }
             while kept.len() < n && !b.is_empty() {
                 let i = (rng.next() % b.len() as u64) as usize;
                 kept.push(b.swap_remove(i));
